@@ -170,15 +170,38 @@ def build(chk):
         fval, sf = build_function_choose(P, ('polynomial', (0, 2)), lambda n: dom(P, n))
         g, gs = build_function_choose(P, ('quadratic', 1, None), lambda n: dom(P, n))
         spec = Inst(objective=(fval, sf), vars=[Var(0, 3), Var(1, 3), Var(2, 3)], cons=[Con(3, LE, (g, gs))], removed=[Rem(Con(4, EQ, (deep_clone(g), gs)))])
-        inst = B.instance(spec)
+        # the instance may carry the values recorded by an earlier instantiation (ids 7, 9: unrelated to any function)
+        recorded = P.choose(2) == 1
+        rv = P.real('recorded7')
+
+        def mkinst():
+            i_ = B.instance(spec)
+            if recorded:
+                eng.setfield(i_, 'v1::Instance', 'parameters', Some(eng.struct('v1::Parameters', entries=RMap('hash', False, [[7, rv], [9, fin(Fraction(1))]]))))
+            return i_
+        inst = mkinst()
+
+        def witness(model):
+            idict = chk.conv.to_dict(mkinst(), MSGI, model)
+            case = {'op': 'instance_roundtrip', 'instance': chk.hexdict(idict, MSGI)}
+
+            def judge(res):
+                if 'ok' not in res:
+                    return True
+                out_ = chk.unhex(res['ok']['instance'], MSGI)
+                same = lambda a, b: all(abs(canon_poly(fn_monomials(a)).get(k, 0) - canon_poly(fn_monomials(b)).get(k, 0)) <= 1e-9
+                                        for k in set(canon_poly(fn_monomials(a))) | set(canon_poly(fn_monomials(b))))
+                return not (same(out_['objective'], idict['objective']) and len(out_['constraints']) == 1 and
+                            same(out_['constraints'][0]['function'], idict['constraints'][0]['function']) and len(out_['removed_constraints']) == 1)
+            return case, judge, f'Instance -> ParametricInstance -> with_parameters(no values) on {idict}'
         try:
             p = P.it.run_body(from_i, [inst])
             res = P.it.run_body(wp, [p, eng.struct('v1::Parameters', entries=RMap('hash'))])
         except RustPanic:
-            P.fail('no-panic')
+            P.fail('no-panic', witness)
             return
         if res.vname != 'Ok':
-            P.fail('ok')
+            P.fail('ok', witness)
             return
         out = rd.instance(res.f[0])
         conj = []
@@ -191,7 +214,7 @@ def build(chk):
             for k in set(got) | set(exp):
                 conj.append(within(got.get(k, Fraction(0)), exp.get(k, Fraction(0)), 8 * EPS * 2 ** 24))
         conj.append(len(out['removed']) == 1 and [v['id'] for v in out['vars']] == [0, 1, 2])
-        P.require('roundtrip', b_and(*conj))
+        P.require('roundtrip', b_and(*conj), witness)
     chk.harness('instance->parametric->instance', h_round)
     chk.validation('with_parameters', lambda c: validate(c, wp))
 
